@@ -278,6 +278,10 @@ def _singleton_proof(prog, f, node, S, pm, depth=0):
                 if f"not ge(len({vk}), 2)" in cl or f"eq(len({vk}), 1)" in cl:
                     whys.append(f"{vk}: bounded by its case")
                     continue
+                # the same test written on the local itself while it still held this value (x = S; if len(x) > 1: x = ...)
+                if (f"not ge(len({S.id}), 2)" in cl or f"eq(len({S.id}), 1)" in cl) and S.id not in astx.free_names(v):
+                    whys.append(f"{vk}: bounded by the test on `{S.id}` in its case")
+                    continue
                 if isinstance(v, ast.Subscript) and isinstance(v.value, ast.Name):
                     dfs = astx.defs_of(f.node, v.value.id)
                     if dfs and all(isinstance(dv, ast.Call) and astx.call_name(dv) == "tiebreak_set" for _, dv in dfs):
